@@ -24,6 +24,7 @@ import (
 	"github.com/compose-spec/compose-go/v2/loader"
 	"github.com/compose-spec/compose-go/v2/template"
 	"github.com/compose-spec/compose-go/v2/tree"
+	"github.com/compose-spec/compose-go/v2/types"
 	"gopkg.in/yaml.v3"
 
 	"verifharness/core"
@@ -415,6 +416,36 @@ func realCasters(raw json.RawMessage) any {
 		ref["f32"] = fmt32(float32(f))
 	}
 	out["ref"] = ref
+	// the self-decoding numeric types on a string source (Model/InterpCustom.lean)
+	var dc types.DeviceCount
+	if err := loader.Transform(a.S, &dc); err == nil {
+		out["devicecount"] = strconv.FormatInt(int64(dc), 10)
+	} else {
+		out["devicecount"] = nil
+	}
+	var ub types.UnitBytes
+	if err := loader.Transform(a.S, &ub); err == nil {
+		out["bytes"] = []string{"ok", strconv.FormatInt(int64(ub), 10)}
+	} else {
+		cls := "other"
+		switch {
+		case strings.Contains(err.Error(), "invalid size"):
+			cls = "invalid-size"
+		case strings.Contains(err.Error(), "invalid suffix"):
+			cls = "invalid-suffix"
+		}
+		out["bytes"] = []string{"err", cls}
+	}
+	var nc types.NanoCPUs
+	nano := any(nil)
+	if err := loader.Transform(a.S, &nc); err == nil {
+		nano = fmt32(float32(nc))
+	}
+	rawRef := any(nil)
+	if f, err := strconv.ParseFloat(a.S, 64); err == nil {
+		rawRef = fmt32(float32(f))
+	}
+	out["nanocpus"] = []any{nano, rawRef}
 	return out
 }
 
@@ -430,6 +461,9 @@ func judgeCasters(args, real, drv json.RawMessage) *core.Verdict {
 		Bad           string
 		Yamlint       any
 		Ref           map[string]any
+		Devicecount   any
+		Bytes         []string
+		Nanocpus      []any
 	}
 	if json.Unmarshal(real, &r) != nil || r.Bad != "" {
 		return core.Disagree("casters: " + r.Bad)
@@ -464,6 +498,17 @@ func judgeCasters(args, real, drv json.RawMessage) *core.Verdict {
 		if fmt.Sprint(r.Ref[k]) != fmt.Sprint(r.Table[k]) {
 			return core.Disagree(fmt.Sprintf("reference float reading of %q (%s) = %v but the caster gives %v", a.S, k, r.Ref[k], r.Table[k]))
 		}
+	}
+	if fmt.Sprint(d["devicecount"]) != fmt.Sprint(r.Devicecount) {
+		return core.Disagree(fmt.Sprintf("Interp.decodeDeviceCount(%q)=%v but DeviceCount.DecodeMapstructure gives %v", a.S, d["devicecount"], r.Devicecount))
+	}
+	if mb, ok := d["bytes"].([]any); ok && len(mb) == 2 && len(r.Bytes) == 2 && mb[0] != "unmodelled" {
+		if fmt.Sprint(mb[0]) != r.Bytes[0] || fmt.Sprint(mb[1]) != r.Bytes[1] {
+			return core.Disagree(fmt.Sprintf("Interp.decodeUnitBytes(%q)=%v but UnitBytes.DecodeMapstructure gives %v", a.S, mb, r.Bytes))
+		}
+	}
+	if len(r.Nanocpus) == 2 && fmt.Sprint(r.Nanocpus[0]) != fmt.Sprint(r.Nanocpus[1]) {
+		return core.Disagree(fmt.Sprintf("NanoCPUs.DecodeMapstructure(%q)=%v but strconv.ParseFloat gives %v (the model takes the raw parser as its parameter)", a.S, r.Nanocpus[0], r.Nanocpus[1]))
 	}
 	if fmt.Sprint(d["bool"]) != fmt.Sprint(r.Table["bool"]) {
 		return core.Disagree(fmt.Sprintf("Interp.parseBool(%q)=%v but toBoolean=%v", a.S, d["bool"], r.Table["bool"]))
@@ -595,6 +640,11 @@ func runC08(ctx *core.Ctx) {
 		}
 		ctx.Count("casters-random")
 		ctx.Add("c08casters", casterArgs{S: b.String()})
+	}
+	// texts for the self-decoding types: sizes with units, `all`, negatives
+	for _, o := range []string{"all", "ALL", "All", "alL ", "64m", "1gb", "512k", "1024b", "1kb", "10M", "2g", "1 m", "1mib", "3t", "1p", "-1", "-0", "010", "0x10", "1_024", "10x", "m", "1kk", "1.5g", "9007199254740993"} {
+		ctx.Count("casters-custom")
+		ctx.Add("c08casters", casterArgs{S: o})
 	}
 	// YAML integer spellings (tie of Spec.yamlInt), incl. the int64 boundary
 	for _, o := range []string{"0X1f", "0B11", "0O17", "0b+1", "0o-7", "0b-1", "-0b11", "-0o7", "-0b+1", "0_8", "09", "018", "+08", "0x", "0b", "0o", "0x_", "1__0", "_1", "+_1", "-_",
